@@ -36,6 +36,10 @@ pub struct MemberSpec {
     pub entries: Vec<EntrySpec>,
     /// max version = last entry version + extra_max
     pub extra_max: u8,
+    /// After the copy is built, an external catch-up call (fed with a less-collected peer's state)
+    /// brings in a tombstone at or below the copy's watermark and one more version.
+    #[serde(default)]
+    pub catchup_tombstone: bool,
 }
 
 #[derive(Clone, Debug, Serialize, Deserialize)]
@@ -209,6 +213,34 @@ pub async fn build_state(spec: &StateSpec, fd: &FdCfg) -> Result<BuiltState, Str
             let (msg, _) = real_decode(&bytes).map_err(|e| format!("builder: ACK did not decode: {e}"))?;
             node.verif_process_message(msg);
         }
+        let mut model = model;
+        if m.catchup_tombstone && model.gc >= 1 && !model.entries.iter().any(|e| e.version == model.gc) {
+            // supplied state = current entries + a tombstone at the watermark (key not otherwise
+            // used) + max version one higher, watermark 0 (the peer has not collected anything)
+            let now = tokio::time::Instant::now();
+            let rid = model.id.to_real();
+            let tomb = WKv { key: "zz-collected-elsewhere".to_string(), value: String::new(), version: model.gc, status: 1 };
+            let mut supplied: Vec<(String, chitchat::VersionedValue)> = model
+                .entries
+                .iter()
+                .map(|e| {
+                    let status = match e.status {
+                        0 => chitchat::DeletionStatus::Set,
+                        1 => chitchat::DeletionStatus::Deleted(now),
+                        _ => chitchat::DeletionStatus::DeleteAfterTtl(now),
+                    };
+                    (e.key.clone(), chitchat::VersionedValue { value: e.value.clone(), version: e.version, status })
+                })
+                .collect();
+            supplied.push((tomb.key.clone(), chitchat::VersionedValue { value: String::new(), version: tomb.version, status: chitchat::DeletionStatus::Deleted(now) }));
+            let new_max = model.max.max(model.gc) + 1;
+            node.reset_node_state_if_update(&rid, supplied.into_iter(), new_max, 0);
+            if node.node_state(&rid).map(|ns| ns.max_version()) == Some(new_max) {
+                model.max = new_max;
+                model.entries.push(tomb);
+                model.entries.sort_by_key(|e| e.version);
+            }
+        }
         // Verify through the public getters.
         let rid = model.id.to_real();
         let Some(ns) = node.node_state(&rid) else {
@@ -294,8 +326,9 @@ pub fn member_strategy(max_entries: usize, max_val: u32) -> impl Strategy<Value 
         prop_oneof![5 => Just(0u8), 2 => Just(1u8), 2 => Just(2u8), 1 => Just(3u8)],
         proptest::collection::vec(entry_strategy(max_val), 0..=max_entries),
         prop_oneof![6 => Just(0u8), 2 => 1u8..4],
+        prop_oneof![4 => Just(false), 1 => Just(true)],
     )
-        .prop_map(|(ipv6, node_id_len, heartbeat, gc_mode, entries, extra_max)| MemberSpec { ipv6, node_id_len, heartbeat, gc_mode, entries, extra_max })
+        .prop_map(|(ipv6, node_id_len, heartbeat, gc_mode, entries, extra_max, catchup_tombstone)| MemberSpec { ipv6, node_id_len, heartbeat, gc_mode, entries, extra_max, catchup_tombstone })
 }
 
 /// Size classes: `small` (many members, tiny entries), `wide` (few members, many keys),
